@@ -48,6 +48,13 @@ pub struct Case {
     pub scale_pow: i8,
     pub xs: Vec<f64>,
     pub ratio: f64,
+    /// amplitude multiplier for the float formats (finite input of any magnitude is in the domain);
+    /// integer formats ignore it
+    #[serde(default = "one")]
+    pub gain: f64,
+}
+fn one() -> f64 {
+    1.0
 }
 
 pub trait SF: Frame + std::fmt::Debug
@@ -141,6 +148,10 @@ where
 {
     let d = c.depth;
     ensure!(d >= 1, "bad case: depth 0");
+    let g = if F::INT { 1.0 } else { c.gain };
+    ensure!(g.is_finite() && g > 0.0, "bad case: gain");
+    let c = &Case { a: c.a.iter().map(|v| v * g).collect(), b: c.b.iter().map(|v| v * g).collect(), ..c.clone() };
+    st.class_if(!F::INT && g > 1.0, "float input above 1.0");
     let a: Vec<F> = c.a.iter().enumerate().map(|(i, v)| F::mk(*v, i as u64)).collect();
     let peak = a.iter().flat_map(|f| f.amps()).fold(0.0f64, |m, x| m.max(x.abs()));
     let xs: Vec<f64> = c.xs.iter().copied().filter(|x| *x >= 0.0 && *x < 1.0).collect();
@@ -295,8 +306,9 @@ pub fn case_strategy(max_depth: usize) -> impl Strategy<Value = Case> {
             proptest::collection::vec(x_strategy(), 1..5),
             prop_oneof![1 => Just(1.0), 3 => (0.1f64..4.0)],
             any::<bool>(),
+            prop_oneof![3 => Just(1.0), 2 => proptest::sample::select(vec![4.0, 3.0, 1000.0, 1e-3, 65536.0, 1e6]), 1 => (0.5f64..50.0)],
         )
-            .prop_map(move |(mut a, mut b, scale_pow, xs, ratio, array_storage)| {
+            .prop_map(move |(mut a, mut b, scale_pow, xs, ratio, array_storage, gain)| {
                 // keep sums and scaled copies inside [-1, 1]
                 if mode == Mode::Linearity {
                     for v in a.iter_mut().chain(b.iter_mut()) {
@@ -308,7 +320,7 @@ pub fn case_strategy(max_depth: usize) -> impl Strategy<Value = Case> {
                         }
                     }
                 }
-                Case { ft: FTS[f], depth, array_storage, mode, a, b, scale_pow, xs, ratio }
+                Case { ft: FTS[f], depth, array_storage, mode, a, b, scale_pow, xs, ratio, gain }
             })
     })
 }
@@ -320,7 +332,7 @@ pub fn run(ctx: &mut Ctx) {
          non-trivial: depth <= 2, history shorter than depth, x != 0, or reset",
     );
     ctx.assume("transparent: |out_n - source[n-depth]| <= 1e-12 peak (+1 LSB for integer formats); linearity within (12 depth + 12) eps sum|inputs| for floats, (6 depth + 3) LSB plus input truncation for integer formats; constant input within 1 % (+ (2 depth + 1) LSB of per-term truncation for integer formats); reset compared bit for bit with a fresh interpolator");
-    for c in ["depth <= 2", "history shorter than depth (priming)", "ratio exactly 1", "linearity", "constant input, primed, depth >= 4", "reset", "converter at a random ratio", "integer format"] {
+    for c in ["depth <= 2", "history shorter than depth (priming)", "ratio exactly 1", "linearity", "constant input, primed, depth >= 4", "reset", "converter at a random ratio", "integer format", "float input above 1.0"] {
         ctx.require_class(c);
     }
     let max_depth = ctx.pick(16usize, 64);
@@ -332,12 +344,12 @@ pub fn run(ctx: &mut Ctx) {
         for depth in 1..=max_depth {
             for l in [0, 1, depth.saturating_sub(1), depth, depth + 1, 2 * depth, 3 * depth + 1] {
                 let a: Vec<f64> = (0..l).map(|i| (((i * 7919) % 201) as f64 - 100.0) / 101.0).collect();
-                cases.push(Case { ft, depth, array_storage: true, mode: Mode::Transparent, a, b: vec![], scale_pow: 0, xs: vec![0.0], ratio: 1.0 });
+                cases.push(Case { ft, depth, array_storage: true, mode: Mode::Transparent, a, b: vec![], scale_pow: 0, xs: vec![0.0], ratio: 1.0, gain: if l % 2 == 0 { 1.0 } else { 5.0 } });
             }
             if depth >= 4 {
                 let xs: Vec<f64> = (0..64).map(|k| k as f64 / 64.0).collect();
-                cases.push(Case { ft, depth, array_storage: false, mode: Mode::Constant, a: vec![0.8], b: vec![0.0; depth], scale_pow: 0, xs: xs.clone(), ratio: 1.0 });
-                cases.push(Case { ft, depth, array_storage: false, mode: Mode::Constant, a: vec![-0.3], b: vec![], scale_pow: 0, xs, ratio: 1.0 });
+                cases.push(Case { ft, depth, array_storage: false, mode: Mode::Constant, a: vec![0.8], b: vec![0.0; depth], scale_pow: 0, xs: xs.clone(), ratio: 1.0, gain: 3.0 });
+                cases.push(Case { ft, depth, array_storage: false, mode: Mode::Constant, a: vec![-0.3], b: vec![], scale_pow: 0, xs, ratio: 1.0, gain: 1.0 });
             }
         }
     }
